@@ -149,6 +149,52 @@ def numOfVal (asStr : Bool) (v : Val) : Option Rat :=
   | false, .at (.num q) => some q
   | _, _ => none
 
+/-! ### C03: the aggregate query as a whole -/
+
+/-- what one (joined) record contributes to an aggregate query: nothing if WHERE is falsy, otherwise
+its group key (`[None]` without GROUP BY) and the values of the select list (aggregate arguments and
+plain columns alike) -/
+def projectAggEnv (q : SemQuery) (e : Env) : Except EngErr (Option (List Val × Row × Env)) := do
+  let pass ← liftErr e.nr (match q.where_ with | some w => w e | none => .ok true)
+  if !pass then return none
+  let (row, _) ← liftErr e.nr (evalItems q.items e)
+  let key ← liftErr e.nr (match q.groupBy with | some g => g e | none => .ok [Val.none])
+  return some (key, row, e)
+
+def projectAggEnvs (q : SemQuery) : List Env → Except EngErr (List (List Val × Row × Env))
+  | [] => .ok []
+  | e :: es => do
+    let hd ← projectAggEnv q e
+    let tl ← projectAggEnvs q es
+    pure (match hd with | some x => x :: tl | none => tl)
+
+/-- (group key, select-list values, environment) of every record passing WHERE, in input order -/
+def aggEmissions (q : SemQuery) (B : Table) : Table → Nat → Except EngErr (List (List Val × Row × Env))
+  | [], _ => .ok []
+  | recA :: rest, nr => do
+    let envs ← expandRecord q B (nr + 1) recA
+    let hd ← projectAggEnvs q envs
+    let tl ← aggEmissions q B rest (nr + 1)
+    pure (hd ++ tl)
+
+/-- distinct group keys in first-seen order -/
+def distinctKeys : List (List Val) → List (List Val)
+  | [] => []
+  | k :: ks => k :: (distinctKeys ks).filter (· ≠ k)
+
+/-- the result of an aggregate query whose accumulations all succeed: one record per distinct group
+key, in ascending key order; column `i` is the aggregate (or the verified constant) of the `i`-th
+select-list values of that group's records, in input order -/
+def aggRowsSpec (q : SemQuery) (krs : List (List Val × Row × Env)) : Except ErrKind (List Row) :=
+  match krs with
+  | [] => .ok []
+  | (_, _, e0) :: _ => do
+    let kinds := aggColKinds q.items e0
+    let cols ← (kinds.zipIdx).mapM (fun p =>
+      foldIncr { kind := p.1 } (krs.map (fun kr => (kr.1, kr.2.1.getD p.2 Val.none))))
+    let keys := (distinctKeys (krs.map (·.1))).mergeSort keyLe
+    pure (truncSpec q.top (keys.map (fun k => cols.map (fun c => ((lookupAcc c.stats k).map Acc.final).getD Val.none))))
+
 /-- UPDATE (C05): simultaneous assignment — every right-hand side sees the original record -/
 def simultaneousAssign (assigns : List (Nat × Ex Val)) (e : Env) (recA : Row) : Except ErrKind Row := do
   let vals ← assigns.mapM (fun p => do let v ← p.2 e; pure (p.1, v))
